@@ -257,7 +257,7 @@ CHECKS = {
         "3/C08",
     ),
     "C09": (
-        "exploration",
+        "translation_validation",
         "bounded-exhaustive Python program generator + finite corpus, CPython's parser as reference",
         "translation validation over a bounded-exhaustive enumeration of Python programs (every parent/field/child triple of Python 3.12's "
         "abstract grammar, operator nestings, literal / layout forms, soft keywords) plus a completely enumerated corpus; oracle: ast.dump "
